@@ -305,3 +305,19 @@ Proof.
   specialize (H _ Hin). cbn [fst snd] in H. rewrite Hp in H. cbn in H.
   apply existsb_exists in H as (x & Hx & E). apply String.eqb_eq in E. now subst.
 Qed.
+
+(* ---------- identity by digest ---------- *)
+(* The models identify series (names and values of the labels), cache entries (type and name) and
+   metric names by their full strings.  The translator lists every call into a digest function
+   (hash/*, crypto/*, third-party hashes): (function, callee).  [digest_only t allowed] says that
+   the only such calls are the listed (function, callee) pairs. *)
+Definition digest_only (t : list (string * string)) (allowed : list (string * string)) : bool :=
+  forallb (fun r => existsb (fun a => String.eqb (fst a) (fst r) && String.eqb (snd a) (snd r)) allowed) t.
+
+Lemma digest_only_sound t allowed : digest_only t allowed = true ->
+  forall f callee, In (f, callee) t -> In (f, callee) allowed.
+Proof.
+  intros H f callee Hin. unfold digest_only in H. rewrite forallb_forall in H.
+  specialize (H _ Hin). apply existsb_exists in H as ([f' c'] & Ha & E). cbn [fst snd] in E.
+  apply andb_true_iff in E as [E1 E2]. apply String.eqb_eq in E1, E2. now subst.
+Qed.
